@@ -100,11 +100,20 @@ def gen_graph(rnd, n, outcome):
                 seq[0] += cnt
                 t['segs'].append(('burst', first, cnt))
                 t['lines'] += ['%s#%d b' % (nm, first + i) for i in range(cnt)]
+        if nm == names[0] and rnd.random() < 0.4 and outcome == 'ok':
+            # the root force-rebuilds one extra child twice in a row: the second build starts while a reader may still be in
+            # the log of the first one, whose last lines come late (just before the script ends)
+            t['segs'].append(('redo2', 'rb'))
+            pad = ''.join(rnd.choice(SAFE[:62]) for _ in range(30))
+            inst = lambda i: ['rb#0 build%d start' % i, 'rb#1 build%d %s' % (i, pad), 'rb#2 build%d late-1' % i, 'rb#3 build%d late-2' % i, 'rb#4 build%d late-3' % i]
+            tg['rb'] = dict(children=[], segs=[('rb', pad, rnd.choice([0.8, 1.2, 1.6]))], lines=inst(1), lines2=inst(2), rc=0, times=2)
         if rnd.random() < 0.25 and t['rc'] == 0:
             # the last line stays unterminated
             s = line('unterminated-tail')
             t['segs'].append(('tail', s))
             t['lines'].append(s)
+    if 'rb' in tg:
+        names = names + ['rb']
     return tg, names
 
 
@@ -132,6 +141,12 @@ def script(nm, t):
             out.append('i=%d; while [ $i -lt %d ]; do echo "%s#$i b" >&2; i=$((i+1)); done' % (seg[1], seg[1] + seg[2], nm))
         elif seg[0] == 'tail':
             out.append("printf '%%s' %s >&2" % sh_quote(seg[1]))
+        elif seg[0] == 'redo2':
+            out.append('echo 1 > %s.inst\nredo %s\necho 2 > %s.inst\nredo %s' % (seg[1], seg[1], seg[1], seg[1]))
+        elif seg[0] == 'rb':
+            # the two builds write different lines (else a reader that slips from the first log into the second goes unnoticed)
+            out.append('read i < rb.inst\necho "rb#0 build$i start" >&2\necho "rb#1 build$i %s" >&2\nsleep %s\n'
+                       'echo "rb#2 build$i late-1" >&2\necho "rb#3 build$i late-2" >&2\necho "rb#4 build$i late-3" >&2' % (seg[1], seg[2]))
     if t['rc']:
         out.append('echo "E $1 $$ %d" >&9\nexit %d' % (t['rc'], t['rc']))
     else:
@@ -204,8 +219,14 @@ def compare(what, per, recs, tg, ran, top, is_replay, structure=True):
     for nm in sorted(ran):
         want = [l.rstrip() for l in tg[nm]['lines']]
         got = [l.rstrip() for l in per.get(nm, [])]
-        if got == want:
+        # a target that was force-rebuilt k times in the run: the viewer shows a target's log once (the build it met first) and a
+        # replay shows the last build; either way every shown build must be complete
+        if got == want and not (is_replay and 'lines2' in tg[nm]):
             continue
+        if 'lines2' in tg[nm]:
+            w2 = [l.rstrip() for l in tg[nm]['lines2']]
+            if (is_replay and got in (w2, want + w2)) or (not is_replay and got == want + w2):
+                continue
         # describe the first difference
         k = next((i for i, (a, b) in enumerate(zip(got, want)) if a != b), min(len(got), len(want)))
         gs, ws = set(got), set(want)
@@ -227,7 +248,7 @@ def compare(what, per, recs, tg, ran, top, is_replay, structure=True):
     # lines of one target under another one
     owner = {}
     for nm in tg:
-        for l in tg[nm]['lines']:
+        for l in tg[nm]['lines'] + tg[nm].get('lines2', []):
             if '#' in l:
                 owner[l.rstrip()] = nm
     for nm, ls in per.items():
@@ -249,12 +270,17 @@ def compare(what, per, recs, tg, ran, top, is_replay, structure=True):
             if len(sp) == 2:
                 dones.setdefault(sp[1], []).append(sp[0])
     for nm in sorted(ran):
-        if dos.get(nm, 0) != 1:
+        if dos.get(nm, 0) != 1 and not (tg[nm].get('times', 1) > 1 and dos.get(nm, 0) in (1, tg[nm]['times'])):
             anoms.append(dict(key='%s:do-record-count' % what, what='%d "do" records for %s' % (dos.get(nm, 0), nm)))
-        exp_done = [str(tg[nm]['rc'] if tg[nm]['rc'] else (0 if nm in ran and ran[nm] == 0 else ran[nm]))]
+        exp_done = [str(tg[nm]['rc'] if tg[nm]['rc'] else (0 if nm in ran and ran[nm] == 0 else ran[nm]))] * (1 if is_replay else tg[nm].get('times', 1))
         got_done = dones.get(nm, [])
         if is_replay and nm == top:
             continue        # the replay ends before the outermost done record
+        if tg[nm].get('times', 1) > 1:
+            # done records are copied from the parent's log, which has one per build, however many builds the viewer showed
+            if not got_done or any(x != exp_done[0] for x in got_done) or len(got_done) > tg[nm]['times']:
+                anoms.append(dict(key='%s:done-record' % what, what='"done" records for %s: %s, expected 1-%d times status %s' % (nm, got_done, tg[nm]['times'], exp_done[0])))
+            continue
         if got_done != exp_done:
             anoms.append(dict(key='%s:done-record' % what, what='"done" records for %s: %s, expected status %s' % (nm, got_done, exp_done)))
     return anoms
@@ -339,6 +365,8 @@ def case(item):
 def _complete(tg, nm, ran):
     """Did the script of nm get through all its segments?  (A failed child stops it under sh -e.)"""
     for seg in tg[nm]['segs']:
+        if seg[0] == 'redo2' and ran.get(seg[1], 0) != 0:
+            return False
         if seg[0] == 'dep':
             for c in seg[1]:
                 if ran.get(c, 0) != 0 or not _complete(tg, c, ran):
@@ -402,7 +430,7 @@ def dispatch(item):
 RULE = ('generated graphs of 3-25 writer scripts (nested and shared children) at -j1..8 via redo and redo-ifchange, raw log mode: every script '
         'writes id-ed lines (<target>#<seq> payload) to stderr in segments interleaved with its redo-ifchange calls: plain lines (0-200 bytes, '
         'unicode, tabs), a line written in 2-5 pieces 20-120 ms apart, lines of 5 000-100 000 bytes, look-alikes of structured records that do '
-        'not parse, empty lines, bursts of 50-200 lines, an unterminated last line; one script may fail. Monitor: the live stderr of the '
+        'not parse, empty lines, bursts of 50-200 lines, an unterminated last line, a child that the root force-rebuilds twice in a row and whose last lines come late; one script may fail. Monitor: the live stderr of the '
         'top-level command and the output of `redo-log -r --no-pretty` (from the project top and from a sub-directory) are attributed to '
         'targets by the do/resumed/done records (a record may be glued to an unterminated line); for every script that ran to its end the '
         'attributed lines must equal the written ones exactly (after trailing-whitespace stripping), no id-ed line may appear under another '
